@@ -150,7 +150,7 @@ theorem unbondOne_shape (x : App) (ups : List (Nat × Int)) (b : Int) (op : Nat)
 theorem unbondOne_St (x : App) (ups : List (Nat × Int)) (b : Int) (op : Nat) (v : Val) (m : St x) (hv : x.getVal op = some v)
     (hg : Gone v) :
     ∃ x', unbondOne ⟨x, ups, b⟩ op = .ok ⟨x', ups ++ [(v.key, 0)], b⟩ ∧ St x' ∧
-      (∀ o, o ≠ op → x'.getVal o = x.getVal o) ∧ (∃ w, x'.getVal op = some w ∧ Unb w) ∧
+      (∀ o, o ≠ op → x'.getVal o = x.getVal o) ∧ (∃ w, x'.getVal op = some w ∧ Unb w ∧ w.key = v.key) ∧
       x'.pending = x.pending ∧ x'.updated = x.updated ∧ x'.params = x.params ∧ x'.height = x.height ∧ x'.time = x.time ∧
       x'.lastTotal = x.lastTotal ∧ x'.cons = x.cons ∧ x'.infos = x.infos := by
   have hvm := mem_of_getVal x op v hv
@@ -241,7 +241,7 @@ theorem unbondOne_St (x : App) (ups : List (Nat × Int)) (b : Int) (op : Nat) (v
   · intro o ho
     have := getVal_setVal_ne x (unbRec x v) o (by rw [show (unbRec x v).op = op from hvop]; exact ho)
     rw [← this]; exact getVal_congr _ _ rfl _
-  · refine ⟨unbRec x v, ?_, rfl, hg.2.1, hg.2.2.1, hg.2.2.2⟩
+  · refine ⟨unbRec x v, ?_, ⟨rfl, hg.2.1, hg.2.2.1, hg.2.2.2⟩, rfl⟩
     have := getVal_setVal_self x (unbRec x v)
     rw [show (unbRec x v).op = op from hvop] at this
     rw [← this]; exact getVal_congr _ _ rfl _
@@ -271,14 +271,15 @@ theorem SameRest.trans' {a b c : App} (h1 : SameRest a b) (h2 : SameRest b c) : 
 theorem unbondLoop_St : ∀ (gl : List (Nat × Int)) (x : App) (ups : List (Nat × Int)) (b : Int),
     St x → (∀ e ∈ gl, ∃ v, x.getVal e.1 = some v ∧ Gone v) → (gl.map (·.1)).Nodup →
     ∃ x' ups', unbondLoop gl ⟨x, ups, b⟩ = .ok ⟨x', ups', b⟩ ∧ St x' ∧
-      (∀ o, o ∉ gl.map (·.1) → x'.getVal o = x.getVal o) ∧ (∀ o ∈ gl.map (·.1), ∃ w, x'.getVal o = some w ∧ Unb w) ∧
+      (∀ o, o ∉ gl.map (·.1) → x'.getVal o = x.getVal o) ∧
+      (∀ o ∈ gl.map (·.1), ∃ w, x'.getVal o = some w ∧ Unb w ∧ ∀ v, x.getVal o = some v → w.key = v.key) ∧
       SameRest x' x
   | [], x, ups, b, m, _, _ => ⟨x, ups, by simp [unbondLoop], m, fun _ _ => rfl, fun o ho => by simp at ho, SameRest.rfl' x⟩
   | (op, q) :: gl, x, ups, b, m, hg, hn => by
     have hn' : (op :: gl.map (·.1)).Nodup := by simpa using hn
     have ⟨hn1, hn2⟩ := List.nodup_cons.mp hn'
     obtain ⟨v, hv, hgv⟩ := hg (op, q) (by simp)
-    obtain ⟨x1, h1, m1, f1, ⟨w1, hw1, hu1⟩, r1, r2, r3, r4, r5, r6, _, r8⟩ := unbondOne_St x ups b op v m hv hgv
+    obtain ⟨x1, h1, m1, f1, ⟨w1, hw1, hu1, hk1⟩, r1, r2, r3, r4, r5, r6, _, r8⟩ := unbondOne_St x ups b op v m hv hgv
     have hg1 : ∀ e ∈ gl, ∃ v, x1.getVal e.1 = some v ∧ Gone v := by
       intro e he
       have hne : e.1 ≠ op := by intro eo; exact hn1 (List.mem_map.mpr ⟨e, he, eo⟩)
@@ -293,9 +294,15 @@ theorem unbondLoop_St : ∀ (gl : List (Nat × Int)) (x : App) (ups : List (Nat 
     · intro o ho
       simp only [List.map_cons, List.mem_cons] at ho
       by_cases hin : o ∈ gl.map (·.1)
-      · exact u2 o hin
+      · obtain ⟨w, hw, hwu, hwk⟩ := u2 o hin
+        have hne : o ≠ op := by intro e; rw [e] at hin; exact hn1 hin
+        exact ⟨w, hw, hwu, fun v' hv' => hwk v' (by rw [f1 o hne]; exact hv')⟩
       · rcases ho with e | e
-        · rw [e, f2 op (by rw [← e]; exact hin)]; exact ⟨w1, hw1, hu1⟩
+        · rw [e, f2 op (by rw [← e]; exact hin)]
+          refine ⟨w1, hw1, hu1, ?_⟩
+          intro v' hv'
+          rw [hv] at hv'; injection hv' with hv'
+          rw [← hv']; exact hk1
         · exact absurd e hin
 
 theorem occ_one_unique (op : Nat) : ∀ (l : List (Nat × Nat)), occ op l = 1 → ∀ e1 ∈ l, ∀ e2 ∈ l, e1.2 = op → e2.2 = op → e1 = e2
@@ -540,8 +547,8 @@ theorem matureOps_St : ∀ (ops : List Nat) (x : App), St x → (∀ o ∈ ops, 
 theorem matureSlots_St : ∀ (slots : Ubq) (x : App), St x → (∀ o ∈ slots.flatMap (·.2), ∃ v, x.getVal o = some v ∧ Unb v) →
     (slots.flatMap (·.2)).Nodup →
     ∃ x', matureSlots slots x = .ok x' ∧ St x' ∧ (∀ o, x'.getVal o = x.getVal o ∨ x'.getVal o = none) ∧
-      SameRest x' x ∧ x'.last = x.last
-  | [], x, m, _, _ => ⟨x, by simp [matureSlots], m, fun _ => Or.inl rfl, SameRest.rfl' x, rfl⟩
+      (∀ o, o ∉ slots.flatMap (·.2) → x'.getVal o = x.getVal o) ∧ SameRest x' x ∧ x'.last = x.last
+  | [], x, m, _, _ => ⟨x, by simp [matureSlots], m, fun _ => Or.inl rfl, fun _ _ => rfl, SameRest.rfl' x, rfl⟩
   | ((t, hh), ops) :: rest, x, m, hr, hn => by
     simp only [List.flatMap_cons, List.nodup_append] at hn
     obtain ⟨hn1, hn2, hn3⟩ := hn
@@ -555,15 +562,22 @@ theorem matureSlots_St : ∀ (slots : Ubq) (x : App), St x → (∀ o ∈ slots.
         have hne : o ∉ ops := fun hm => hn3 o hm o ho rfl
         obtain ⟨w, hw, hwu⟩ := hr o (by simp only [List.flatMap_cons, List.mem_append]; right; exact ho)
         exact ⟨w, by rw [f1 o hne]; exact hw, hwu⟩
-      obtain ⟨x2, h2, m2, f2, s2, l2⟩ := matureSlots_St rest x1 m1 hr1 hn2
-      refine ⟨x2, h2, m2, ?_, s2.trans' s1, l2.trans l1⟩
-      intro o
-      rcases f2 o with e | e
-      · by_cases hin : o ∈ ops
-        · right; rw [e]; exact g1 o hin
-        · left; rw [e]; exact f1 o hin
-      · exact Or.inr e
-    · exact matureSlots_St rest x m (fun o ho => hr o (by simp only [List.flatMap_cons, List.mem_append]; right; exact ho)) hn2
+      obtain ⟨x2, h2, m2, f2, k2, s2, l2⟩ := matureSlots_St rest x1 m1 hr1 hn2
+      refine ⟨x2, h2, m2, ?_, ?_, s2.trans' s1, l2.trans l1⟩
+      · intro o
+        rcases f2 o with e | e
+        · by_cases hin : o ∈ ops
+          · right; rw [e]; exact g1 o hin
+          · left; rw [e]; exact f1 o hin
+        · exact Or.inr e
+      · intro o ho
+        simp only [List.flatMap_cons, List.mem_append, not_or] at ho
+        rw [k2 o ho.2, f1 o ho.1]
+    · obtain ⟨x2, h2, m2, f2, k2, s2, l2⟩ := matureSlots_St rest x m (fun o ho => hr o (by simp only [List.flatMap_cons, List.mem_append]; right; exact ho)) hn2
+      refine ⟨x2, h2, m2, f2, ?_, s2, l2⟩
+      intro o ho
+      simp only [List.flatMap_cons, List.mem_append, not_or] at ho
+      exact k2 o ho.2
 
 end App
 end PoaVerif
